@@ -209,4 +209,6 @@ def replay(obj):
         print('exit %d, %d [fail] tags, %d [warn] tags -> expected %d' % (ret, fl, w, want))
         return 1 if ret != want else 0
     print(json.dumps(f, indent=1)[:2000])
-    return 0
+    import sys
+    from common import rerun_for_signature
+    return rerun_for_signature(sys.modules[__name__], f)
